@@ -60,11 +60,12 @@ def quoteDash (fam : List Tok) : List Tok :=
   | f :: r => if f.data.head? == some '-' then .mk f.tt ('\'' :: f.data ++ ['\'']) f.args :: r else fam
   | [] => []
 
-/-- the `font` case; `none` = a family string with a backslash (outside the model of `font-family`) -/
-def minifyFont (vs : List Tok) : Option (List Tok) :=
-  if vs.length ≤ 1 then some vs else
-  let i0 := (match firstCommaFrom2 vs with | some c => c - 1 | none => vs.length - 1) - 1
-  let i := famLoop vs i0
+/-- the index `i` at which the family search stops: the last token that is not part of the families -/
+def fontSplit (vs : List Tok) : Nat :=
+  famLoop vs ((match firstCommaFrom2 vs with | some c => c - 1 | none => vs.length - 1) - 1)
+
+/-- the `font` case once `i` is known -/
+def minifyFontAt (vs : List Tok) (i : Nat) : Option (List Tok) :=
   match minifyFontFamily (vs.drop (i + 1)) with
   | none => none
   | some fam =>
@@ -75,6 +76,10 @@ def minifyFont (vs : List Tok) : Option (List Tok) :=
       let mid := if identOf (head.getD i default) == S "normal" then [head.getD (i - 2) default] else head.drop (i - 2)
       some ((head.take (i - 2)).filterMap fontPreTok ++ mid ++ fam)
     else some ((head.take i).filterMap fontPreTok ++ head.drop i ++ fam)
+
+/-- the `font` case; `none` = a family string with a backslash (outside the model of `font-family`) -/
+def minifyFont (vs : List Tok) : Option (List Tok) :=
+  if vs.length ≤ 1 then some vs else minifyFontAt vs (fontSplit vs)
 
 /-! ## background -/
 
